@@ -222,8 +222,9 @@ def depth_of_tree(e: ENode) -> int:
 
 
 class Built:
-    def __init__(self, root_e: ENode, sources: list) -> None:
+    def __init__(self, root_e: ENode, sources: list, fresh_origins: bool = False) -> None:
         self.sources = sources
+        self.fresh_origins = fresh_origins  # every origin gets its own (equal but distinct) source objects
         self.live: dict[int, Any] = {}
         self.root_e = root_e
         self.root = self._build(root_e)
@@ -244,7 +245,7 @@ class Built:
                 kw[f.name] = self._build(v)
         for k, v in e.props.items():
             kw[k] = v
-        node = M.cls(e.cls)(origin=og.build_origin(e.origin, self.sources), **kw)
+        node = M.cls(e.cls)(origin=og.build_origin(e.origin, self.sources, self.fresh_origins), **kw)
         if e.det:
             node.detach_self()
         self.live[e.uid] = node
